@@ -53,6 +53,7 @@ CONFIGS = {
     "np24s4w1c": (0, "np2split/NP24_meta/_spikeglx_ephysData_g0_t0.imec0.ap.meta", 4, 1, True),
     "np21w2": (1, "np2split/NP21_meta/_spikeglx_ephysData_g0_t0.imec0.ap.meta", 0, 2, False),
     "np21w1c": (1, "np2split/NP21_meta/_spikeglx_ephysData_g0_t0.imec0.ap.meta", 0, 1, True),
+    "np21w2c": (1, "np2split/NP21_meta/_spikeglx_ephysData_g0_t0.imec0.ap.meta", 0, 2, True),
     "np1w1": (2, "np2split/NP1_meta/_spikeglx_ephysData_g0_t0.imec0.ap.meta", 0, 1, False),
 }
 NS_OF_W = {1: 1200, 2: 1800, 3: 2400}
@@ -258,6 +259,9 @@ class Sites:
         self.in_compress = False
         self.in_delete = False
         self.verify_ok = False
+        self.check_failed = False
+        self.touched = False
+        self.logfile = None
 
     def hit(self, code):
         """a site call that cannot fail by itself: crash point, then counted"""
@@ -271,6 +275,9 @@ class Sites:
     def done(self, code):
         self.i += 1
         self.trace.append(code)
+        if self.logfile is not None:
+            with builtins.open(self.logfile, "a") as f:
+                f.write("%d " % code)
 
     def good(self, code):
         p = dict(universe(self.root, self.n)).get(code)
@@ -284,42 +291,28 @@ class Sites:
         return True
 
 
-def run_real(root, cfg, exp, r):
-    """One fresh converter object, one process() call.  Returns the observation."""
-    import mtscomp
-    import neuropixel
-    import spikeglx
-    from neuropixel import NP2Converter
-    quiet()
-    kind, fixture, n, w, compressed = CONFIGS[cfg]
-    root = root.resolve()
-    t = r["t"]
-    if t == 0:
-        tgt = owner_path(root, 1, 0)
-    elif t == 1:
-        tgt = owner_path(root, 1, 1)
-    else:
-        tgt = owner_path(root, 10 + 2 * (t - 2), 0)
-        if not tgt.exists():
-            tgt = tgt.with_suffix(".cbin")
-    crash = None if r["crash"] < 0 else r["crash"]
-    corrupt = None if r["corrupt"] < 0 else r["corrupt"]
-    S = Sites(root, n, crash, corrupt, exp, 0 if t == 0 else 1)
-    obs = {"checked": 0, "already": 2, "processed": 0}
-    conv = None
-    try:
-        conv = NP2Converter(tgt, post_check=bool(r["post"]), delete_original=bool(r["del"]),
-                            compress=bool(r["comp"]))
-        conv.init_params(nwindow=NWINDOW)
-    except FileNotFoundError:
-        obs["outcome"] = 201
-    except Exception as e:
-        obs["outcome"] = 209
-        obs["exc"] = repr(e)
-    if conv is not None:
+class VerifyFailed(AssertionError):
+    pass
+
+
+class patched:
+    """Installs the site wrappers for the duration of one method call of one converter."""
+
+    def __init__(self, root, cfg, S, cpos=0):
+        self.root, self.cfg, self.S, self.cpos = root, cfg, S, cpos
+
+    def __enter__(self):
+        import mtscomp
+        import neuropixel
+        import spikeglx
+        from neuropixel import NP2Converter
+        root, S, cpos = self.root, self.S, self.cpos
+        kind, fixture, n, w, compressed = CONFIGS[self.cfg]
+        corrupt = S.corrupt
         o_mkdir, o_unlink, o_rename = pathlib.Path.mkdir, pathlib.Path.unlink, pathlib.Path.rename
         o_split, o_check, o_delete = NP2Converter._split2shanks, NP2Converter.check_NP24, NP2Converter.delete_NP24
         o_wmeta, o_compress = spikeglx.write_meta_data, mtscomp.compress
+        self.saved = (o_mkdir, o_unlink, o_rename, o_split, o_check, o_delete, o_wmeta, o_compress)
 
         def mkdir(self, *a, **k):
             if not S.in_compress:
@@ -350,14 +343,21 @@ def run_real(root, cfg, exp, r):
                     # damage one AP sample (never the sync column): first, middle or last frame
                     ns = NS_OF_W[w]
                     row = p.stat().st_size // ns
-                    off = {0: 0, 1: (ns // 2) * row + 6, 2: (ns - 1) * row}[r.get("cpos", 0)] if row else 0
+                    off = {0: 0, 1: (ns // 2) * row + 6, 2: (ns - 1) * row}[cpos] if row else 0
                     with builtins.open(p, "r+b") as f:
                         f.seek(off)
                         b = f.read(2)
                         f.seek(off)
                         f.write(bytes(x ^ 0x55 for x in b))
+                    S.touched = True
             S.pre()
-            res = o_check(self)        # a failed comparison raises: the step is not counted
+            try:
+                res = o_check(self)        # a failed comparison raises: the step is not counted
+            except Injected:
+                raise
+            except Exception as e:         # AssertionError, or shape/IO errors on truncated / missing files
+                S.check_failed = True
+                raise VerifyFailed(repr(e))
             S.done(600000)
             S.verify_ok = True
             return res
@@ -369,7 +369,7 @@ def run_real(root, cfg, exp, r):
             if c in (10, 11) and self.exists():
                 # an original is about to be removed: what is on disk right now?
                 if kind == 0:
-                    okn = S.verify_ok and S.shanks_good_now()
+                    okn = S.shanks_good_now()
                 else:
                     okn = c == 10 and S.good(11) and S.good(13)
                 S.aux.append(["unlink_orig", c, int(S.verify_ok), int(okn), int(S.in_delete)])
@@ -398,8 +398,7 @@ def run_real(root, cfg, exp, r):
                 else:
                     Path(outmeta).write_bytes(old)
                 raise Injected()
-            S.i += 1
-            S.trace.append(900000 + oc)
+            S.done(900000 + oc)
             return res
 
         def rename(self, target):
@@ -423,47 +422,101 @@ def run_real(root, cfg, exp, r):
         NP2Converter._split2shanks, NP2Converter.check_NP24, NP2Converter.delete_NP24 = split, check, delete
         spikeglx.write_meta_data, mtscomp.compress = wmeta, compress
         neuropixel.open = fopen
-        try:
-            st = conv.process(overwrite=bool(r["ow"]))
-            obs["outcome"] = 100 + int(st)
-        except Injected:
-            obs["outcome"] = 203
-        except FileNotFoundError as e:
-            obs["outcome"] = 201
-            obs["exc"] = repr(e)
-        except AssertionError as e:
-            obs["outcome"] = 202
-            obs["exc"] = repr(e)
-        except Exception as e:
-            obs["outcome"] = 209
-            obs["exc"] = repr(e)
-        finally:
-            pathlib.Path.mkdir, pathlib.Path.unlink, pathlib.Path.rename = o_mkdir, o_unlink, o_rename
-            NP2Converter._split2shanks, NP2Converter.check_NP24, NP2Converter.delete_NP24 = o_split, o_check, o_delete
-            spikeglx.write_meta_data, mtscomp.compress = o_wmeta, o_compress
-            del neuropixel.open
+        return self
+
+    def __exit__(self, *a):
+        import mtscomp
+        import neuropixel
+        import spikeglx
+        from neuropixel import NP2Converter
+        (pathlib.Path.mkdir, pathlib.Path.unlink, pathlib.Path.rename, NP2Converter._split2shanks,
+         NP2Converter.check_NP24, NP2Converter.delete_NP24, spikeglx.write_meta_data, mtscomp.compress) = self.saved
+        del neuropixel.open
+        return False
+
+
+def invoke(fn, obs):
+    """Runs fn() and classifies how it ended."""
+    try:
+        st = fn()
+        obs["outcome"] = 107 if st is None else 100 + int(st)
+    except Injected:
+        obs["outcome"] = 203
+    except FileNotFoundError as e:
+        obs["outcome"] = 201
+        obs["exc"] = repr(e)
+    except AssertionError as e:
+        obs["outcome"] = 202
+        obs["exc"] = repr(e)
+    except Exception as e:
+        obs["outcome"] = 209
+        obs["exc"] = repr(e)
+
+
+def release(conv):
+    """Closes every handle the object still holds."""
+    try:
+        conv.sr.close()
+    except Exception:
+        pass
+    for sh in (getattr(conv, "shank_info", None) or {}).values():
+        for key, v in list(sh.items()):
+            if key.endswith("open_file") or key == "sr":
+                try:
+                    v.close()
+                except Exception:
+                    pass
+
+
+def reader_closed(conv):
+    raw = getattr(conv.sr, "_raw", None)
+    m = getattr(raw, "_mmap", None)
+    if m is not None:
+        return bool(m.closed)
+    f = getattr(raw, "cdata", None)
+    return bool(getattr(f, "closed", False))
+
+
+def run_real(root, cfg, exp, r):
+    """One fresh converter object, one process() call.  Returns the observation."""
+    from neuropixel import NP2Converter
+    quiet()
+    kind, fixture, n, w, compressed = CONFIGS[cfg]
+    root = root.resolve()
+    t = r["t"]
+    if t == 0:
+        tgt = owner_path(root, 1, 0)
+    elif t == 1:
+        tgt = owner_path(root, 1, 1)
+    else:
+        tgt = owner_path(root, 10 + 2 * (t - 2), 0)
+        if not tgt.exists():
+            tgt = tgt.with_suffix(".cbin")
+    crash = None if r["crash"] < 0 else r["crash"]
+    corrupt = None if r["corrupt"] < 0 else r["corrupt"]
+    S = Sites(root, n, crash, corrupt, exp, 0 if t == 0 else 1)
+    obs = {"checked": 0, "already": 2, "processed": 0}
+    conv = None
+    try:
+        # the constructor takes str or Path: alternate (representation must not matter)
+        conv = NP2Converter(str(tgt) if (r["post"] + r["comp"] + r["ow"]) % 2 else tgt,
+                            post_check=bool(r["post"]), delete_original=bool(r["del"]),
+                            compress=bool(r["comp"]))
+        conv.init_params(nwindow=NWINDOW)
+    except FileNotFoundError:
+        obs["outcome"] = 201
+    except Exception as e:
+        obs["outcome"] = 209
+        obs["exc"] = repr(e)
+    if conv is not None:
+        with patched(root, cfg, S, r.get("cpos", 0)):
+            invoke(lambda: conv.process(overwrite=bool(r["ow"])), obs)
         obs["checked"] = int(bool(getattr(conv, "check_completed", False)))
         if obs["outcome"] < 200:
             ae = getattr(conv, "already_exists", None)
             obs["already"] = 2 if ae is None else int(bool(ae))
         obs["processed"] = int(bool(getattr(conv, "already_processed", False)))
-        # release every handle the object still holds
-        try:
-            conv.sr.close()
-        except Exception:
-            pass
-        for sh in getattr(conv, "shank_info", {}).values():
-            for key, v in list(sh.items()):
-                if key.endswith("open_file"):
-                    try:
-                        v.close()
-                    except Exception:
-                        pass
-                elif key == "sr":
-                    try:
-                        v.close()
-                    except Exception:
-                        pass
+        release(conv)
         conv = None
         gc.collect()
     obs["trace"] = S.trace
@@ -471,6 +524,104 @@ def run_real(root, cfg, exp, r):
     obs["verify_ok"] = int(S.verify_ok)
     obs.update(observe(root, n, exp))
     return obs
+
+
+def run_object(root, cfg, exp, opts, calls):
+    """ONE converter object, several method calls (process / check_NP24 / delete_NP24 / attribute
+    assignment), exceptions caught in between.  Returns one observation per call.  A process() call
+    on an object whose reader is closed kills the interpreter (SIGSEGV in np.memmap): it is run in
+    a forked child and ends the sequence."""
+    from neuropixel import NP2Converter
+    quiet()
+    kind, fixture, n, w, compressed = CONFIGS[cfg]
+    root = root.resolve()
+    tgt = owner_path(root, 1, 1 if compressed else 0)
+    conv = NP2Converter(tgt, post_check=bool(opts[0]), delete_original=bool(opts[1]), compress=bool(opts[2]))
+    conv.init_params(nwindow=NWINDOW)
+    out = []
+    ever_ok = False          # some check_NP24 on this object has succeeded
+    fresh_ok = False         # ... and since then no check failed and no shank file was rewritten / damaged
+    for c in calls:
+        crash = None if c["crash"] < 0 else c["crash"]
+        corrupt = None if c["corrupt"] < 0 else c["corrupt"]
+        tform = 1 if conv.ap_file.suffix == ".cbin" else 0
+        S = Sites(root, n, crash, corrupt, exp, tform)
+        obs = {"checked": 0, "already": 2, "processed": 0, "closed_before": int(reader_closed(conv)),
+               "ever_ok_before": int(ever_ok), "fresh_ok_before": int(fresh_ok),
+               # compress_NP21 has replaced self.sr by Reader(self.ap_file) (sort=True by default)
+               "reopened": int(kind == 1 and not compressed and tform == 1)}
+        ct = c["ct"]
+        if ct == 0:
+            fn = lambda: conv.process(overwrite=bool(c["ow"]))
+        elif ct == 1:
+            fn = lambda: conv.check_NP24()
+        elif ct == 2:
+            fn = lambda: conv.delete_NP24()
+        else:
+            def fn():
+                conv.post_check, conv.delete_original, conv.compress = bool(c["post"]), bool(c["del"]), bool(c["comp"])
+        died = False
+        if ct == 0 and obs["closed_before"]:
+            log = root.parent / (root.name + ".sitelog")
+            log.write_text("")
+            S.logfile = log
+            pid = os.fork()
+            if pid == 0:
+                try:
+                    with patched(root, cfg, S, c.get("cpos", 0)):
+                        invoke(fn, obs)
+                    (root.parent / (root.name + ".childobs")).write_text(json.dumps(
+                        [obs.get("outcome"), obs.get("exc", ""), int(bool(conv.check_completed)),
+                         getattr(conv, "already_exists", None)]))
+                finally:
+                    os._exit(0)
+            _, status = os.waitpid(pid, 0)
+            S.trace = [int(x) for x in log.read_text().split()]
+            co = root.parent / (root.name + ".childobs")
+            if os.WIFSIGNALED(status) or not co.exists():
+                obs["outcome"] = 209
+                obs["exc"] = "interpreter killed by signal %s" % (os.WTERMSIG(status) if os.WIFSIGNALED(status) else "?")
+                died = True
+            else:
+                oc, exc, chk, ae = json.loads(co.read_text())
+                obs["outcome"], obs["exc"] = oc, exc
+                if oc < 200:
+                    obs["already"] = 2 if ae is None else int(bool(ae))
+                died = True      # the parent's object did not see the call: stop here
+                co.unlink()
+            log.unlink()
+            obs["checked"] = int(bool(getattr(conv, "check_completed", False)))
+        else:
+            with patched(root, cfg, S, c.get("cpos", 0)):
+                invoke(fn, obs)
+            obs["checked"] = int(bool(getattr(conv, "check_completed", False)))
+            if ct == 0 and obs["outcome"] < 200:
+                ae = getattr(conv, "already_exists", None)
+                obs["already"] = 2 if ae is None else int(bool(ae))
+            # drop file handles of an interrupted call (a user's except: clause would leave them to the GC)
+            for sh in (getattr(conv, "shank_info", None) or {}).values():
+                for key in [k for k in sh if k.endswith("open_file")]:
+                    try:
+                        sh[key].close()
+                    except Exception:
+                        pass
+        if S.verify_ok:
+            ever_ok = fresh_ok = True
+        if S.check_failed or (S.touched and not S.verify_ok) or \
+                (any(200000 <= t < 300000 for t in S.trace) and not S.verify_ok):
+            fresh_ok = False
+        obs["trace"] = S.trace
+        obs["aux"] = S.aux
+        obs["verify_ok"] = int(S.verify_ok)
+        obs["check_failed"] = int(S.check_failed)
+        obs.update(observe(root, n, exp))
+        out.append(obs)
+        if died:
+            break
+    release(conv)
+    conv = None
+    gc.collect()
+    return out
 
 
 def observe(root, n, exp):
@@ -570,7 +721,7 @@ def oracle(ctx, cfg, runs, obs, pre0, seen):
         if s[14] != 2:
             fail("original metadata changed or removed", dict(tags, clause="meta"))
         for ev in o["aux"]:
-            if ev[0] == "unlink_orig" and not ev[3]:
+            if ev[0] == "unlink_orig" and not (ev[3] and (ev[2] or kind != 0)):
                 fail("original removed before verification / lossless compression completed "
                      "(verified=%d)" % ev[2], dict(tags, clause="delete_before_verify"))
         if o["checked"] and not o["verify_ok"]:
@@ -608,6 +759,72 @@ def oracle(ctx, cfg, runs, obs, pre0, seen):
         prev = list(s.values())
 
 
+def mkcall(ct=0, post=0, dele=0, comp=0, ow=0, crash=-1, corrupt=-1, cpos=0):
+    """ct: 0 process(overwrite=ow) | 1 check_NP24() | 2 delete_NP24() | 3 assign post/del/comp"""
+    return {"ct": ct, "post": post, "del": dele, "comp": comp, "ow": ow, "crash": crash, "corrupt": corrupt,
+            "cpos": cpos}
+
+
+def enc_objseq(cfg, opts, calls):
+    kind, fixture, n, w, compressed = CONFIGS[cfg]
+    out = [10 + kind, n, w, int(compressed)] + [int(x) for x in opts]
+    for c in calls:
+        out += [c["ct"], c["post"], c["del"], c["comp"], c["ow"], c["crash"], c["corrupt"]]
+    return out
+
+
+def oracle_object(ctx, cfg, opts, calls, obs, pre0, seen):
+    """Property clauses for several calls on ONE object.  Tags say whether the failing call was made
+    on an object that had already closed its reader (after_closed) and whether check_completed was
+    stale (true although the last check failed / the shank files were rewritten since)."""
+    kind, fixture, n, w, compressed = CONFIGS[cfg]
+    cur_opts = tuple(opts)
+    for i, (c, o) in enumerate(zip(calls, obs)):
+        s = st_of(cfg, o)
+        case = {"cfg": cfg, "object": 1, "opts": list(opts), "calls": calls[:i + 1]}
+        key = json.dumps(case, sort_keys=True)
+        stale = int(bool(o["checked"]) and not (o["verify_ok"] or (o["fresh_ok_before"] and not o["check_failed"]
+                                                                   and not any(200000 <= t < 300000 or 500000 <= t < 600000
+                                                                               for t in o["trace"]))))
+        tags = {"kind": kind, "mode": "object", "after_closed": o["closed_before"], "stale_flag": stale, "clause": ""}
+
+        def fail(what, tg):
+            if (key, what) not in seen:
+                seen.add((key, what))
+                ctx.fail(what, case, tg)
+        if o["extra"]:
+            fail("unexpected files appear: %s" % o["extra"][:3], dict(tags, clause="extra"))
+        if not recoverable(cfg, s):
+            fail("original samples are no longer recoverable after the call", dict(tags, clause="recoverable"))
+        if s[14] != 2:
+            fail("original metadata changed or removed", dict(tags, clause="meta"))
+        for ev in o["aux"]:
+            if ev[0] == "unlink_orig" and kind == 0 and not (ev[3] and (ev[2] or o["fresh_ok_before"])):
+                fail("original removed although the last verification did not succeed on the files now on disk",
+                     dict(tags, clause="delete_before_verify"))
+            if ev[0] == "unlink_orig" and kind == 1 and not ev[3]:
+                fail("original removed before its compressed copy was complete", dict(tags, clause="delete_before_verify"))
+        if o["checked"] and not (o["verify_ok"] or o["ever_ok_before"]):
+            fail("check_completed set although no check_NP24 of this object ever succeeded",
+                 dict(tags, clause="checked_never_verified"))
+        if c["ct"] == 1 and o["check_failed"] and o["checked"]:
+            fail("check_completed is true although the last check_NP24 failed", dict(tags, clause="checked_stale"))
+        if c["ct"] == 0 and o["outcome"] == 101 and kind != 2:
+            eff = {"comp": int(bool(cur_opts[2])), "t": 1 if compressed else 0}
+            bad = outputs_valid(cfg, eff, s)
+            if kind == 1 and eff["comp"] and not compressed:
+                bad = [b for b in bad if b != "original not compressed in place"] + \
+                    ([] if (s[10] == 0 and s[11] == 2 and s[13] == 2) else ["original not compressed in place"])
+            if bad:
+                fail("completed call left invalid output: %s" % bad[:3],
+                     dict(tags, clause="complete_valid", reopened_reader=o.get("reopened", 0)))
+        if c["ct"] == 3:
+            cur_opts = (c["post"], c["del"], c["comp"])
+        if c["ct"] == 0 and o["closed_before"] and o["outcome"] == 209 and "signal" in o.get("exc", ""):
+            fail("process() on an object that has closed its reader kills the interpreter",
+                 dict(tags, clause="segfault"))
+
+
 # ----------------------------------------------------------------------------
 # exploration (worker processes)
 # ----------------------------------------------------------------------------
@@ -639,6 +856,23 @@ def worker(task):
     exp = {int(k): v for k, v in json.loads((base / cfg / "exp.json").read_text()).items()}
     rng = random.Random(task["seed"])
     work = Path(common.tmpdir(prefix="C04_w_"))
+    if "object" in task:
+        try:
+            res = []
+            for j, (opts, calls) in enumerate(task["object"]):
+                d = work / ("o%d" % j)
+                shutil.copytree(base / cfg / "init", d)
+                try:
+                    obs = run_object(d, cfg, exp, opts, calls)
+                except Exception as e:      # the harness could not even build the object
+                    obs = [{"outcome": 209, "exc": repr(e), "checked": 0, "already": 2, "processed": 0, "trace": [],
+                            "aux": [], "verify_ok": 0, "check_failed": 0, "closed_before": 0, "ever_ok_before": 0,
+                            "fresh_ok_before": 0, "state": [], "extra": []}]
+                res.append((list(opts), calls[:len(obs)], obs))
+                shutil.rmtree(d, ignore_errors=True)
+            return cfg, ("object", res)
+        finally:
+            shutil.rmtree(work, ignore_errors=True)
     out = []
     ctr = [0]
 
@@ -766,13 +1000,86 @@ def make_tasks(ctx, base):
         add(cfg, [], [mkrun(t=-1, post=1, dele=1, comp=c, ow=o, corrupt=k, cpos=(c + 2 * o + k) % 3)
                       for c in (0, 1) for o in (0, 1)][:4 if th else 3], "none", 1)
     # NP2.1: every crash point, fresh and after earlier runs, plain and pre-compressed original
-    add("np21w2", [], T if th else [t for t in T if t["post"] == t["del"]], "all", fo)
+    # (a follow-up after every interrupted run: interrupted-then-rerun histories, plain and forced)
+    add("np21w2", [], T if th else [t for t in T if t["post"] == t["del"]], "all", 1)
     for prefix in ([mkrun(t=-1, comp=1)], [mkrun(t=-1, comp=0)], [mkrun(t=-1, comp=1, crash=6)],
-                   [mkrun(t=-1, comp=1, crash=8)]):
+                   [mkrun(t=-1, comp=1, crash=8)], [mkrun(t=-1, comp=1, crash=9)],
+                   [mkrun(t=-1, comp=1, crash=2), mkrun(t=-1, comp=1, ow=1, crash=7)],
+                   [mkrun(t=-1, comp=1, crash=11)], [mkrun(t=-1, comp=0, ow=1, crash=1)]):
         add("np21w2", prefix, [mkrun(t=-1, comp=1, ow=1), mkrun(t=-1, comp=0, ow=1), mkrun(t=-1, comp=1, ow=0)],
             "all" if th else 4, fo)
-    add("np21w1c", [], [t for t in T if t["post"] == 1 and t["del"] == 0], "all", fo)
+    # original given as .cbin (compress_NP21 must leave it alone), fresh and after interrupted runs
+    add("np21w1c", [], [t for t in T if t["post"] == 1 and t["del"] == 0], "all", 1)
+    add("np21w2c", [], [t for t in T if t["post"] == 0 and t["del"] == 1], "all", 1)
+    for prefix in ([mkrun(t=-1, comp=1, crash=5)], [mkrun(t=-1, comp=1, crash=7)], [mkrun(t=-1, comp=0)]):
+        add("np21w2c", prefix, [mkrun(t=-1, comp=1, ow=1), mkrun(t=-1, comp=1, ow=0)], "all" if th else 3, fo)
     add("np1w1", [], T if th else rng.sample(T, 4), "none", 1)
+    tasks += object_tasks(ctx, base)
+    return tasks
+
+
+def object_tasks(ctx, base):
+    """Sequences of method calls on ONE converter object."""
+    rng = ctx.rng
+    th = ctx.thorough()
+    P, K, D, O = (lambda **k: mkcall(ct=0, **k)), (lambda **k: mkcall(ct=1, **k)), \
+        (lambda **k: mkcall(ct=2, **k)), (lambda post, dele, comp: mkcall(ct=3, post=post, dele=dele, comp=comp))
+    allo = [(a, b, c) for a in (0, 1) for b in (0, 1) for c in (0, 1)]
+    seqs = {"np24s1w3": [], "np24s4w2": [], "np21w2": [], "np21w2c": [], "np24s4w1c": []}
+    s1 = seqs["np24s1w3"]
+    # re-use after the object has deleted the original (F-C04-d) and harmless variants
+    for o in ((1, 1, 0), (1, 1, 1)):
+        s1 += [(o, [P(), P(ow=1)]), (o, [P(), P()]), (o, [P(), D()])]
+    # stale check_completed (F-C04-e): failed direct check, interrupted forced re-run, then delete_NP24
+    for cp in (0, 1, 2):
+        s1.append(((1, 0, 0), [P(), K(corrupt=0, cpos=cp), O(1, 1, 0), D()]))
+    s1 += [((1, 0, 0), [P(), K(corrupt=0), K(), K()]),
+           ((1, 1, 1), [P(crash=13), P(ow=1, crash=5), D()]),
+           ((1, 1, 1), [P(crash=17), P(ow=1, crash=1), D()]),
+           ((1, 1, 0), [P(corrupt=0), D()]),
+           # legitimate uses of the separate methods
+           ((0, 0, 0), [P(), K(), O(0, 1, 0), D()]), ((1, 0, 0), [P(), K(), K(crash=0), K()]),
+           ((0, 1, 0), [P(), D(), K(), D()]), ((0, 0, 0), [P(), K(crash=0), O(1, 1, 0), D()]),
+           ((1, 0, 0), [P(), O(1, 1, 1), P(ow=1)]), ((0, 0, 1), [P(), O(1, 1, 0), P(ow=1), P()])]
+    # an interrupted call followed by a forced / plain retry on the same object
+    for o in allo:
+        pts = list(range(26)) if th else sorted(rng.sample(range(26), 5))
+        for c in pts:
+            s1.append((o, [P(crash=c), P(ow=1)]))
+        s1.append((o, [P(), P()]))
+        s1.append((o, [P(ow=1, crash=rng.randrange(26)), P(crash=rng.randrange(26)), P(ow=1)]))
+    for _ in range(120 if th else 25):
+        o = rng.choice(allo)
+        calls, dele = [], o[1]
+        for _j in range(rng.randrange(2, 5)):
+            x = rng.random()
+            if x < 0.65:
+                calls.append(P(ow=rng.randrange(2), crash=rng.choice([-1, -1, rng.randrange(26)])))
+            elif x < 0.85:
+                no = rng.choice(allo)
+                calls.append(O(*no))
+                dele = no[1]
+            elif dele:
+                calls.append(D())
+        if calls:
+            s1.append((o, calls))
+    s4 = seqs["np24s4w2"]
+    s4 += [((1, 1, 0), [P(), P(ow=1)]), ((1, 0, 0), [P(), K(corrupt=2, cpos=1), O(1, 1, 0), D()]),
+           ((1, 1, 1), [P(crash=30), P(ow=1, crash=14), D()]), ((1, 1, 1), [P(crash=rng.randrange(70)), P(ow=1)]),
+           ((0, 0, 0), [P(), K(), O(0, 1, 0), D()])]
+    # (a closed mtscomp reader keeps serving cached chunks of these tiny files: no re-use after delete here)
+    seqs["np24s4w1c"] += [((1, 0, 0), [P(), P(ow=1)]), ((1, 1, 1), [P(crash=rng.randrange(50)), P(ow=1)])]
+    s2 = seqs["np21w2"]
+    for o in ((0, 0, 1), (1, 1, 1)):
+        s2 += [(o, [P(), P(ow=1)]), (o, [P(), P()]), (o, [P(crash=8), P(ow=1)]), (o, [P(crash=8), P()])]
+        for c in (range(14) if th else sorted(rng.sample(range(14), 5))):
+            s2.append((o, [P(crash=c), P(ow=1), P()]))
+    s2 += [((0, 0, 0), [P(), O(0, 0, 1), P(ow=1)]), ((0, 0, 0), [P(), P(ow=1), O(1, 0, 1), P(ow=1, crash=6), P(ow=1)])]
+    seqs["np21w2c"] += [((0, 0, 1), [P(), P(ow=1)]), ((0, 0, 1), [P(crash=5), P(ow=1), P()])]
+    tasks = []
+    for cfg, lst in seqs.items():
+        for i in range(0, len(lst), 8):
+            tasks.append({"base": str(base), "cfg": cfg, "object": lst[i:i + 8], "seed": 0})
     return tasks
 
 
@@ -780,6 +1087,7 @@ def run(ctx):
     common.proof_obligations(ctx, whitelist=[])
     base = Path(common.tmpdir(prefix="C04_base_"))
     hists = []
+    objs = []
     try:
         ok_cfgs = []
         for cfg in CONFIGS:
@@ -797,6 +1105,10 @@ def run(ctx):
         mpc = multiprocessing.get_context("fork")
         with ProcessPoolExecutor(max_workers=5, mp_context=mpc) as ex:
             for cfg, out in ex.map(worker, tasks, chunksize=1):
+                if isinstance(out, tuple) and out[0] == "object":
+                    for opts, calls, obs in out[1]:
+                        objs.append((cfg, opts, calls, obs))
+                    continue
                 for runs, obs in out:
                     hists.append((cfg, runs, obs))
         init_states = {}
@@ -838,10 +1150,32 @@ def run(ctx):
         if o["trace"]:
             nontrivial.add(json.dumps([cfg, runs], sort_keys=True))
     dist["distinct_abstract_states"] = len(states)
-    inputs = [enc_hist(cfg, runs) for cfg, runs, obs in hists]
-    outputs = [[x for o in obs for x in enc_obs(o)] for cfg, runs, obs in hists]
+    uo = {}
+    for cfg, opts, calls, obs in objs:
+        uo.setdefault(json.dumps([cfg, opts, calls], sort_keys=True), (cfg, opts, calls, obs))
+    objs = list(uo.values())
+    dist.update({"object_sequences": len(objs), "object_calls": 0, "object_direct_check": 0,
+                 "object_direct_delete": 0, "object_set_options": 0, "object_call_on_closed_reader": 0,
+                 "object_interpreter_killed": 0})
+    for cfg, opts, calls, obs in objs:
+        oracle_object(ctx, cfg, opts, calls, obs, init_states[cfg], seen)
+        dist["object_calls"] += len(calls)
+        dist["object_direct_check"] += sum(c["ct"] == 1 for c in calls)
+        dist["object_direct_delete"] += sum(c["ct"] == 2 for c in calls)
+        dist["object_set_options"] += sum(c["ct"] == 3 for c in calls)
+        dist["object_call_on_closed_reader"] += sum(o["closed_before"] for o in obs)
+        dist["object_interpreter_killed"] += sum("signal" in o.get("exc", "") for o in obs)
+        if any(o["trace"] for o in obs[1:]):
+            nontrivial.add(json.dumps([cfg, opts, calls], sort_keys=True))
+    inputs = [enc_hist(cfg, runs) for cfg, runs, obs in hists] + \
+        [enc_objseq(cfg, opts, calls) for cfg, opts, calls, obs in objs]
+    outputs = [[x for o in obs for x in enc_obs(o)] for cfg, runs, obs in hists] + \
+        [[x for o in obs for x in enc_obs(o)] for cfg, opts, calls, obs in objs]
+    nh = len(hists)
     common.correspondence(ctx, PROP, HEADER, inputs, outputs,
-                          lambda i: {"cfg": hists[i][0], "runs": hists[i][1]}, n_kernel=40)
+                          lambda i: ({"cfg": hists[i][0], "runs": hists[i][1]} if i < nh else
+                                     {"cfg": objs[i - nh][0], "object": 1, "opts": objs[i - nh][1],
+                                      "calls": objs[i - nh][2]}), n_kernel=40)
     samples = [{"cfg": c, "runs": r, "outcomes": [o["outcome"] for o in ob], "final_state": ob[-1]["state"]}
                for c, r, ob in hists[:: max(1, len(hists) // 6)]]
     return common.finish(
@@ -853,7 +1187,7 @@ def run(ctx):
              "mtscomp.compress, or a shank file damaged before check_NP24; followed by a plain re-run, a forced "
              "re-run, a random run, or a run on a split shank file; evaluations = distinct histories, each "
              "compared run by run with the model; non-trivial = the last run executed at least one site call",
-        samples=samples, evaluations=len(hists), distinct_nontrivial=len(nontrivial),
+        samples=samples, evaluations=len(hists) + len(objs), distinct_nontrivial=len(nontrivial),
         extra={"input_distribution": dist, "exhaustive": False},
         assumptions=["mtscomp.compress is deterministic for a given input file",
                      "an interruption is an exception raised between two site calls or inside mtscomp.compress"])
